@@ -174,6 +174,23 @@ theorem bbsVerify_length [DecidableEq G] (g1 : G) (ys : List G) (rvl : List (Nat
     decide_eq_false_iff_not, decide_eq_true_eq] at h
   exact ⟨h.1.1.2, h.1.2, h.1.1.1.1.1.1.1, h.1.1.1.1.1.1.2, h.2⟩
 
+/-- **Why `t` has to enter the challenge hash.** For *every* challenge, every response vector of the right length and
+every pair `(Ā, B̄)` that passes the pairing test (a harvested pair re-randomised does), the point
+`t := bbsRecommit …` makes the verifier accept. If the challenge did not depend on `t`, anybody could pick the responses,
+learn the challenge and solve for `t` — a proof without any signature (seeded change `bbs-t-not-hashed`, caught by the
+simulated-proof attack of C01). With `t` hashed the challenge is fixed only after `t`, and `bbs_pok_sound` applies. -/
+theorem bbs_simulatable_when_t_is_free [DecidableEq G] (g1 : G) (ys : List G) (rvl : List (Nat × F)) (c : F)
+    (abar bbar : G) (resp : List F) (ha : abar ≠ 0) (hb : bbar ≠ 0)
+    (hl : resp.length = (hiddenGens ys (rvl.map (·.1))).length + 2)
+    (hidx : rvl.all (fun p => decide (p.1 < ys.length)) = true) (hnd : (rvl.map (·.1)).Nodup)
+    (ht : bbsRecommit g1 ys rvl c ⟨abar, bbar, 0, resp⟩ ≠ 0) :
+    bbsVerify g1 ys rvl c ⟨abar, bbar, bbsRecommit g1 ys rvl c ⟨abar, bbar, 0, resp⟩, resp⟩ true = true := by
+  have hrec : bbsRecommit g1 ys rvl c ⟨abar, bbar, bbsRecommit g1 ys rvl c ⟨abar, bbar, 0, resp⟩, resp⟩
+      = bbsRecommit g1 ys rvl c ⟨abar, bbar, 0, resp⟩ := rfl
+  simp only [bbsVerify, Bool.and_eq_true, Bool.not_eq_true', Bool.or_eq_false_iff,
+    decide_eq_false_iff_not, decide_eq_true_eq, and_true]
+  exact ⟨⟨⟨⟨⟨⟨ha, hb⟩, ht⟩, hidx⟩, hnd⟩, hl⟩, hrec.symm ▸ rfl⟩
+
 /-! ### PS -/
 
 /-- PS verification equation (secret-key reading) -/
